@@ -250,22 +250,26 @@ def ids_in(spec, out=None, path=()):
     return out
 
 
-def expected_expansion(spec):
+def expected_expansion(spec, copies=None):
+    """copies (optional list) receives (path of a copied child in the expanded tree, path of its source in the original)"""
     idmap = ids_in(spec)
     s = e3._clone(spec)
 
-    def sub(n):
+    def sub(n, path):
         new = []
         for c in n[3]:
             if c[0] == "references":
                 tpath = idmap[c[1]][0]
                 T = e3.get(spec, tpath)
-                new.extend(e3._clone(k) for k in T[3])
+                for j, k in enumerate(T[3]):
+                    if copies is not None:
+                        copies.append((path + (len(new),), tuple(tpath) + (j,)))
+                    new.append(e3._clone(k))
             else:
-                sub(c)
+                sub(c, path + (len(new),))
                 new.append(c)
         n[3] = new
-    sub(s)
+    sub(s, ())
     return s
 
 
@@ -281,6 +285,18 @@ def check(spec, fault, case, do_edits=True):
         root.add_namespace(None, "urn:default")       # default namespace (key None), as from_xml produces
         root.add_namespace("eml", "urn:eml")
     nodes = witness.preorder(root)
+    # every field a node can carry is in use (text after the element, a qualified attribute): a deep copy carries them all
+    for i_, n_ in enumerate(nodes[1:]):
+        if n_.name != "references":
+            n_.tail = f" tail{i_} "
+            n_.add_extras("xml:lang", f"l{i_}")
+    by_path = {}
+
+    def index_paths(n_, path_):
+        by_path[path_] = n_
+        for j_, c_ in enumerate(n_.children):
+            index_paths(c_, path_ + (j_,))
+    index_paths(root, ())
     valid_before = True
     try:
         validate.tree(root)
@@ -306,7 +322,8 @@ def check(spec, fault, case, do_edits=True):
     if exc is not None:
         bad("expand_raised", "no exception", repr(exc), exc=type(exc).__name__)
         return probs
-    exp = expected_expansion(spec)
+    copies = []
+    exp = expected_expansion(spec, copies)
     got = spec_of(root)
     if got != exp:
         # locate first difference
@@ -323,6 +340,11 @@ def check(spec, fault, case, do_edits=True):
         d = first_diff(exp, got)
         bad("expansion_wrong", {"at": d[0], "expected": d[1]}, d[2])
         return probs
+    for cpath, spath in copies:
+        dcopy = gtree.snap_diff(gtree.snap(by_path[spath], with_id=False), gtree.snap(e3_node(root, cpath), with_id=False))
+        if dcopy:
+            bad("copy_not_deep_equal", {"source": list(spath), "field": dcopy[1], "value": dcopy[2]}, dcopy[3], field=dcopy[1])
+            break
     after_nodes = witness.preorder(root)
     if any(n.name == "references" for n in after_nodes):
         bad("references_left", "no references node", "present")
